@@ -59,6 +59,59 @@ fn round_trip<T: Serialize + DeserializeOwned + PartialEq + std::fmt::Debug + 's
     all_ok
 }
 
+/// the wrapper's own pair of entry points: `MetadataWrapper::to_bytes` writes what `from_bytes`,
+/// `try_from_bytes` and `MetablockBuilder::from_raw_metadata` read back as the same value - and it writes
+/// the canonical JSON of the value (what the trait method and the `Json` writer give)
+fn wrapper_bytes_case(sink: &mut Sink, meta: &MetadataWrapper, class: &str) {
+    use in_toto::models::{MetablockBuilder, MetadataType};
+    let j = serde_json::to_value(meta).unwrap();
+    let replay = format!("roundtrip MetadataWrapper::to_bytes {}", proto(&j, &mut None));
+    let m2 = meta.clone();
+    let bytes = match guarded(move || m2.to_bytes()) {
+        Err(()) => {
+            sink.oracle(false, "MetadataWrapper::to_bytes panicked", &replay);
+            return;
+        }
+        Ok(Err(_)) => {
+            sink.stat(&format!("wrapper-bytes/{}/unserialisable", class));
+            return;
+        }
+        Ok(Ok(b)) => b,
+    };
+    let typ = match meta {
+        MetadataWrapper::Layout(_) => MetadataType::Layout,
+        MetadataWrapper::Link(_) => MetadataType::Link,
+    };
+    let readers: Vec<(&str, Box<dyn Fn(&[u8]) -> Option<MetadataWrapper>>)> = vec![
+        ("from_bytes", Box::new(move |b: &[u8]| MetadataWrapper::from_bytes(b, typ).ok())),
+        ("try_from_bytes", Box::new(|b: &[u8]| MetadataWrapper::try_from_bytes(b).ok())),
+        ("MetablockBuilder::from_raw_metadata", Box::new(|b: &[u8]| MetablockBuilder::from_raw_metadata(b).ok().map(|x| x.build().metadata))),
+    ];
+    let mut all = true;
+    for (name, rd) in &readers {
+        let b2 = bytes.clone();
+        match guarded(std::panic::AssertUnwindSafe(|| rd(&b2))) {
+            Err(()) => {
+                sink.oracle(false, &format!("{} panicked on the output of MetadataWrapper::to_bytes", name), &replay);
+                all = false;
+            }
+            Ok(None) => {
+                sink.oracle(false, &format!("{} cannot read what MetadataWrapper::to_bytes wrote", name), &replay);
+                all = false;
+            }
+            Ok(Some(back)) => {
+                sink.oracle(back == *meta, &format!("the value changes from MetadataWrapper::to_bytes to {}", name), &replay);
+                all &= back == *meta;
+            }
+        }
+    }
+    let canonical = Json::canonicalize(&j).ok();
+    sink.oracle(canonical.as_deref() == Some(&bytes[..]), "MetadataWrapper::to_bytes does not write the canonical JSON of the value", &replay);
+    let via_trait = meta.clone().into_trait().to_bytes().ok();
+    sink.oracle(via_trait.as_deref() == Some(&bytes[..]), "MetadataWrapper::to_bytes and Metadata::to_bytes write different bytes for one value", &replay);
+    sink.stat(&format!("wrapper-bytes/{}/{}", class, if all { "round-trips" } else { "FAILS" }));
+}
+
 fn rule_dec_case(sink: &mut Sink, v: &Value, class: &str) {
     let v2 = v.clone();
     let ans = match guarded(move || serde_json::from_value::<ArtifactRule>(v2)) {
@@ -157,6 +210,12 @@ pub fn run(cfg: &Cfg) {
             }
         }
         round_trip::<MetadataWrapper>(&mut sink, "MetadataWrapper", &meta);
+        wrapper_bytes_case(&mut sink, &meta, "generated");
+        if i % 10 == 0 {
+            // (captured tool output: line ends, tabs, a bell, an escape sequence of a terminal)
+            let t = *r.pick(&["line one\nline two\n", "col\tcol", "\u{7}done", "\u{1b}[1mbold\u{1b}[0m", "cr\r\n", "\u{0}", "quote \" and backslash \\ and \u{e9}"]);
+            wrapper_bytes_case(&mut sink, &crate::c11::link_with(t), "control-characters");
+        }
         for k in layout.keys.values() {
             round_trip::<in_toto::crypto::PublicKey>(&mut sink, "PublicKey", k);
             // the key description against Model/KeyJson.lean: as written, and mutated
